@@ -24,6 +24,11 @@ TEXT = {
         "note": "Trusted: Lean kernel, driver compilation, hook emission faithfulness (omissions cause rejection), harness. CandsKnown assumed for the reference procedure (checked by the driver per case).",
         "technique": "Lean 4 verified UNSAT-certificate checker (RUP + provenance + unit reasons) over the implementation's history, plus verified independent decision procedure",
     },
+    "C03": {
+        "text": "Partial proof + verified per-run oracles on the implementation's own conflict reports. For every Unsolvable answer the check takes the real ConflictGraph (public fields) and the clause ids the Conflict blames and decides: every edge states a true fact of the provider's data (requires edge: requirement belongs to its source and its targets are exactly that requirement's candidates, or the unresolved node iff it has none; constrains / lock / exclusion edges point at really non-matching / locked-out / excluded solvables; forbid edges join solvables of one package), every node is reachable from the root, and the facts shown in the graph alone (plus one-per-package inside forbid-connected components) admit no selection installing the root - decided by the verified DPLL (refutes_exact). Lean also proves that learnt clauses of accepted histories follow from their recorded antecedents (a forgotten learnt_why entry makes the history, or the blamed-clause refutation, fail).",
+        "note": "The universal statement about analyze_unsolvable/Conflict::graph is not yet proved; petgraph is trusted for the implementation side only (the oracle reads the edge list).",
+        "technique": "Lean 4 verified refutation oracle + provenance/RUP theorems, evaluated on every implementation conflict report",
+    },
     "C04": {
         "text": "Exploration backed by verified oracles (claimed partial). Every generated case (solve, soft, conflict-free families; all hint patterns x exclusions x locks x soft x cycles x own-package constrains x repeated union members) runs the real solve, Conflict::graph, graphviz and display_user_friendly under catch_unwind with a per-case watchdog and an address-space limit, in debug-assertion and release builds; a panic, hang or runaway allocation on a well-formed provider is a failing input. Four genuine defects found this way were repaired (see known_findings.json). No universal termination/panic-freedom theorem about the search is proved.",
         "note": "Partial: universal termination and absence of panics are NOT proved; the check explores. Trusted: harness watchdog, WF filter of the driver.",
